@@ -6,7 +6,8 @@
 //               means (n x comps), covs (n x n*comps), weights (comps x 1).
 // kind correct: ints n q m generic skip have_y fail online; mats params, H (m x n), D (m x q),
 //               A (additive: H; generic: [H D]), R (additive: m x m; generic: Rv q x q), y (m x 1),
-//               means, covs, weights, old_means, old_covs, old_weights (content of the output object).
+//               means, covs, weights, old_means, old_covs, old_weights (content of the output object);
+//               optional int warm + mat y0: the same object first performs a successful correction with y0.
 #define VF_MAIN
 #include "common.hpp"
 #include <BayesFilters/GaussianMixture.h>
@@ -129,18 +130,33 @@ int main() {
             const MatrixXd& H = c.mat("H"); const MatrixXd& R = c.mat("R"); const MatrixXd& A = c.mat("A"); const MatrixXd& y = c.mat("y");
             const bool have_y = c.integer("have_y") != 0, fail = c.integer("fail") != 0;
             std::unique_ptr<UKFCorrection> ukf;
+            ServedLTI* served = nullptr; NoiseInputMeasModel* noisy = nullptr;
             MatrixXd Reff = R;
             {
                 vf::Entry e("UKFCorrection::UKFCorrection");
                 if (generic) {
                     const MatrixXd& D = c.mat("D");
                     Reff = D * R * D.transpose();
-                    ukf.reset(new UKFCorrection(std::unique_ptr<MeasurementModel>(new NoiseInputMeasModel(A, R, y, have_y, fail, n, q)), alpha, beta, kappa, c.integer("online") != 0));
-                } else
-                    ukf.reset(new UKFCorrection(std::unique_ptr<AdditiveMeasurementModel>(new ServedLTI(H, R, y, have_y, fail)), alpha, beta, kappa));
+                    noisy = new NoiseInputMeasModel(A, R, y, have_y, fail, n, q);
+                    ukf.reset(new UKFCorrection(std::unique_ptr<MeasurementModel>(noisy), alpha, beta, kappa, c.integer("online") != 0));
+                } else {
+                    served = new ServedLTI(H, R, y, have_y, fail);
+                    ukf.reset(new UKFCorrection(std::unique_ptr<AdditiveMeasurementModel>(served), alpha, beta, kappa));
+                }
+            }
+            GaussianMixture corr(c.mat("old_means").cols(), n);
+            if (c.has_int("warm") && c.integer("warm")) {
+                // an earlier, successful correction by the same object (measurement y0), into a scratch output
+                vf::Entry e("UKFCorrection::correct(warm-up)");
+                GaussianMixture scratch(c.mat("old_means").cols(), n);
+                if (served) { served->y_ = c.mat("y0"); served->have_y_ = true; served->fail_ = false; }
+                if (noisy) { noisy->y_ = c.mat("y0"); noisy->have_y_ = true; noisy->fail_ = false; }
+                ukf->freeze_measurements();
+                ukf->correct(in, scratch);
+                if (served) { served->y_ = y; served->have_y_ = have_y; served->fail_ = fail; }
+                if (noisy) { noisy->y_ = y; noisy->have_y_ = have_y; noisy->fail_ = fail; }
             }
             if (c.integer("skip")) ukf->skip(true);
-            GaussianMixture corr(c.mat("old_means").cols(), n);
             corr.mean() = c.mat("old_means"); corr.covariance() = c.mat("old_covs"); corr.weight() = c.mat("old_weights");
             {
                 vf::Entry e("UKFCorrection::correct");
